@@ -4,8 +4,10 @@ package props
 import (
 	_ "verif/htlab/internal/props/c01"
 	_ "verif/htlab/internal/props/c02"
+	_ "verif/htlab/internal/props/c05"
 	_ "verif/htlab/internal/props/c06"
 	_ "verif/htlab/internal/props/c08"
+	_ "verif/htlab/internal/props/c09"
 	_ "verif/htlab/internal/props/c10"
 	_ "verif/htlab/internal/props/c17"
 	_ "verif/htlab/internal/props/c19"
